@@ -21,6 +21,9 @@ def check(run, tier, seed, replay=None):
         "condition messages / transition times not compared",
         "the handover clause is judged on passes of the real ObjectSet controller for unsliced outgoing revisions, atomic or with the "
         "incoming revision's pass run between the outgoing teardown's read and delete (Store.WriteHook); the interleaved pass is not modelled",
+        "the archive rule reads status.controllerOf of the older revision: ObjectSets of the deployment histories have local phases only "
+        "(no ObjectSetPhase objects); that an ObjectSet with delegated phases relays the controllerOf its ObjectSetPhases report is C15's "
+        "claim and checked there",
     ]
     vlib.std_proof_stage(run, "C08")
     ok, blog = vlib.build_harness()
@@ -36,7 +39,7 @@ def check(run, tier, seed, replay=None):
     else:
         kern = depgen.kernel(seed, tier)
         nk = len(kern)
-        pairs = depgen.corpus() + kern + depgen.histories(seed, 150 if tier == "quick" else 1000, salt="C08")
+        pairs = depgen.corpus() + kern + depgen.histories(seed, 100 if tier == "quick" else 1000, salt="C08")
     res = dl.run_cases(run, pairs, "judge08", 7, "From PKOCorr Require Import C08Corr.", shard=200)
     for ctx, sc, obs, r in res:
         if r is None:
@@ -54,7 +57,7 @@ def check(run, tier, seed, replay=None):
             concrete = True
             ident = WHAT[name]
             if name == "archive" and mons["archive_inline"] and dc.has_slices(sc):
-                ident = dc.ID_C08
+                ident = dc.ID_C08M if dc.has_missing_slice(sc) else dc.ID_C08
             if name == "shared" and dc.has_slices(sc):
                 ident = dc.ID_C08S
             run.violation(ident, {"scenario": dl.slim(sc), "impl": dc.slim_obs(obs), "monitor": name}, True)
@@ -68,7 +71,7 @@ def check(run, tier, seed, replay=None):
     run.cov["rule"] = ("exhaustive kernel: chains of 1-3 (quick) / 1-4 (thorough) revisions; every earlier revision ranges over "
                        "{Available, not} x {active, spec-paused, status-paused, archived} x controllerOf in {nil, [] stored, own objects only, "
                        "objects shared with the next revision}; newest {Available, not}; template orders with pairwise overlapping, disjoint and "
-                       "sliced (fully / partly in ObjectSlices) revisions; revisionHistoryLimit in {unset, 0, 1, 2, 10} (all for chains <= 2, "
+                       "sliced (fully / partly in ObjectSlices, or referencing a slice that does not exist) revisions; revisionHistoryLimit in {unset, 0, 1, 2, 10} (all for chains <= 2, "
                        "cycled for longer chains in quick); one pass of the real controller per row; + the C07 corpus and random histories with real "
                        "ObjectSet controller passes (handover, pause toggles, limit changes, faults); non-trivial = a deployment pass sends a "
                        "request besides its status; distinct = (chain flags, per-step requests with results)")
